@@ -4,6 +4,7 @@ import (
 	"crypto/sha256"
 	"encoding/hex"
 	"encoding/json"
+	"fmt"
 	"time"
 )
 
@@ -63,11 +64,11 @@ type Step struct {
 	NewSpec *SysSpec `json:"new_spec,omitempty"`
 
 	// crash / fault / concurrency fields are added by the worlds that use them
-	Image   string `json:"image,omitempty"`    // crash: kill | powerloss
-	ImgSeed int64  `json:"img_seed,omitempty"` // power-loss draw
-	Tasks   [][]Step `json:"tasks,omitempty"`  // concurrent block
-	Sched   []int    `json:"sched,omitempty"`  // scheduling choices
-	Armed   []string `json:"armed,omitempty"`  // armed point label prefixes
+	Image   string   `json:"image,omitempty"`    // crash: kill | powerloss
+	ImgSeed int64    `json:"img_seed,omitempty"` // power-loss draw
+	Tasks   [][]Step `json:"tasks,omitempty"`    // concurrent block
+	Sched   []int    `json:"sched,omitempty"`    // scheduling choices
+	Armed   []string `json:"armed,omitempty"`    // armed point label prefixes
 }
 
 // Fault: "at the n-th hit of site <Site> (after step AfterStep began), do Action".
@@ -105,6 +106,9 @@ func (p *Program) Shape() string {
 	s := p.Store.Backend + "|" + p.Store.DropPolicy
 	for _, st := range p.Steps {
 		s += "," + st.Op
+		if st.Op == "filecase" {
+			s += fmt.Sprintf("(%s,%s,%d,%v)", st.Route, st.Reason, st.Batch, st.Pad)
+		}
 	}
 	for _, f := range p.Faults {
 		s += ";" + f.Site + ":" + f.Action
